@@ -1079,6 +1079,7 @@ func (a *Assembler) cleanSG(half *halfconnection, ac AssemblerContext) {
 	var saved *page
 	for _, r := range a.cacheSG.all[ndx:] {
 		preConvertLen := r.length()
+		_, wasPage := r.(*page)
 		first, last, nb := r.convertToPages(a.pc, skip, ac)
 
 		// skip is an offset into the first kept container only. A live
@@ -1087,6 +1088,11 @@ func (a *Assembler) cleanSG(half *halfconnection, ac AssemblerContext) {
 		// change kept applying it to every following container.
 		_ = preConvertLen
 		skip = 0
+		if !wasPage {
+			// new pages were allocated for the kept part of a live packet:
+			// half.pages counts saved pages too
+			half.pages += nb
+		}
 
 		if half.saved == nil {
 			half.saved = first
@@ -1140,7 +1146,7 @@ func (a *Assembler) addPending(half *halfconnection, firstSeq Sequence) int {
 		var next *page
 		for p := half.saved; p != nil; p = next {
 			next = p.next
-			p.release(a.pc)
+			half.pages -= p.release(a.pc)
 		}
 		half.saved = nil
 		ret = []byteContainer{}
